@@ -38,6 +38,9 @@ def worker(job):
         c = dagcase.gen_ext_case(rng, max_tids=job['max_tids'], backend=job.get('backend'))
         if c is not None:
             cases.append(c)
+        c = dagcase.gen_poison_case(rng, max_tids=job['max_tids'], backend=job.get('backend'))
+        if c is not None:
+            cases.append(c)
     cases = [normalise(c) for c in cases]
     lines = [dagcase.encode(c) for c in cases]
     model = driver.run_lines(lines)
@@ -58,6 +61,12 @@ def worker(job):
                 # another writer acts during the run: outside the models (CacheStable); property monitor only
                 bump('external_writer_cases')
                 for v in dagmon.monitor_ext(c, rec):
+                    rep['violations'].append(dict(property='C03', what=v, case=c, line=line, real=obs))
+                continue
+            if c.get('poison'):
+                # a torn entry: what a load of it does is C13's subject; here only "cached => loaded, not executed"
+                bump('torn_entry_cases')
+                for v in dagmon.monitor_poison(c, rec):
                     rep['violations'].append(dict(property='C03', what=v, case=c, line=line, real=obs))
                 continue
             if obs != m:
